@@ -134,6 +134,10 @@ def apply_case(text, how):
 JOINERS = ["", " ", " of ", " of the ", "  ", " of\n", "\n"]
 
 
+import functools
+
+
+@functools.lru_cache(maxsize=None)
 def chain_strategy(min_len=1, max_len=4):
     return st.lists(st.sampled_from(COMPONENTS), min_size=min_len, max_size=max_len)
 
